@@ -8,13 +8,16 @@ import finam as fm
 
 # ------------------------------------------------------------------ spec generation
 def gen_structured(tape, *, kinds=("uniform", "rectilinear", "esri"), max_dim=3, max_len=5, min_len=1,
-                   allow_degenerate=True, dim=None):
+                   allow_degenerate=True, dim=None, big_coords=False):
     kinds = [k for k in kinds if dim in (None, 2) or k != "esri"]
     kind = tape.choice(list(kinds))
     if kind == "esri":
         sp = {"type": "esri", "ncols": tape.rng_int(1, max_len - 1), "nrows": tape.rng_int(1, max_len - 1),
               "cellsize": tape.choice([1.0, 0.5, 2.0]), "xll": tape.choice([0.0, 10.0, -3.5]),
               "yll": tape.choice([0.0, -2.0, 7.0]), "order": tape.choice(["C", "F"])}
+        if big_coords and tape.chance(1, 4):
+            # projected coordinates with fine cells (UTM-like): seven significant digits are not enough
+            sp.update(cellsize=0.25, xll=4375000.25, yll=5700000.125)
         if tape.chance(1, 5):
             sp["cast"] = tape.choice(["uniform", "rectilinear", "uniform+rectilinear"])
         return sp
@@ -32,6 +35,9 @@ def gen_structured(tape, *, kinds=("uniform", "rectilinear", "esri"), max_dim=3,
     if kind == "uniform":
         sp["spacing"] = [tape.choice([1.0, 0.5, 2.0, 3.0]) for _ in range(dim)]
         sp["origin"] = [tape.choice([0.0, 10.0, -4.0]) for _ in range(dim)]
+        if big_coords and tape.chance(1, 4):
+            sp["spacing"] = [0.25] * dim
+            sp["origin"] = [4375000.25, 5700000.125, 1000000.375][:dim]
         if cube:
             sp["spacing"] = [sp["spacing"][0]] * dim
             sp["origin"] = [sp["origin"][0]] * dim
@@ -62,6 +68,8 @@ def relayout(tape, sp):
         # as uniform grid: dims are points
         base = {"type": "uniform", "dims": [sp["ncols"] + 1, sp["nrows"] + 1], "spacing": [sp["cellsize"]] * 2,
                 "origin": [sp["xll"], sp["yll"]], "loc": "cells"}
+        if sp.get("crs"):
+            base["crs"] = sp["crs"]
     else:
         base = {k: v for k, v in sp.items() if k not in ("order", "rev", "inc", "cast", "relocated")}
     dim = len(base["dims"])
@@ -104,15 +112,16 @@ def _make_grid(sp):
         return fm.NoGrid(dim=sp.get("dim", 0))
     if t == "esri":
         return fm.EsriGrid(ncols=sp["ncols"], nrows=sp["nrows"], cellsize=sp["cellsize"], xllcorner=sp["xll"],
-                           yllcorner=sp["yll"], order=sp["order"])
+                           yllcorner=sp["yll"], order=sp["order"], crs=sp.get("crs"))
     if t == "uniform":
         return fm.UniformGrid(dims=sp["dims"], spacing=tuple(sp["spacing"]) + (1.0,) * (3 - len(sp["dims"])),
                               origin=tuple(sp["origin"]) + (0.0,) * (3 - len(sp["dims"])),
                               data_location=_loc(sp["loc"]), order=sp["order"], axes_reversed=sp["rev"],
-                              axes_increase=sp["inc"])
+                              axes_increase=sp["inc"], crs=sp.get("crs"))
     if t == "rectilinear":
         axes = [np.asarray(a if inc else a[::-1], dtype=float) for a, inc in zip(sp["axes"], sp["inc"])]
-        return fm.RectilinearGrid(axes=axes, data_location=_loc(sp["loc"]), order=sp["order"], axes_reversed=sp["rev"])
+        return fm.RectilinearGrid(axes=axes, data_location=_loc(sp["loc"]), order=sp["order"], axes_reversed=sp["rev"],
+                                  crs=sp.get("crs"))
     if t == "points":
         return fm.UnstructuredPoints(points=np.asarray(sp["points"], dtype=float), order=sp.get("order", "C"))
     if t == "unstructured":
